@@ -16,7 +16,7 @@ pub enum Fmt { NTriples, NQuads, Turtle, N3, RdfXml }
 #[derive(Serialize, Deserialize, Clone, Debug)]
 pub struct Doc { pub triples: Vec<(LT, u32, LT)>, pub seed: u64 }
 #[derive(Serialize, Deserialize, Clone, Debug)]
-pub struct LoadCase { pub hash_seed: u64, pub pool: usize, pub rayon_seed: u64, pub cpus: i64, pub shuttle_seed: u64, pub prior: Vec<(LT, u32, LT, Option<u32>)>, pub prior_terms: u32, pub doc: Doc, pub formats: Vec<Fmt>, pub twice: bool, pub comments: bool, #[serde(default)] pub n3_literals: bool, #[serde(default)] pub nq_graphs: bool }
+pub struct LoadCase { pub hash_seed: u64, pub pool: usize, pub rayon_seed: u64, pub cpus: i64, pub shuttle_seed: u64, pub prior: Vec<(LT, u32, LT, Option<u32>)>, pub prior_terms: u32, pub doc: Doc, pub formats: Vec<Fmt>, pub twice: bool, pub comments: bool, #[serde(default)] pub n3_literals: bool, #[serde(default)] pub nq_graphs: bool, #[serde(default)] pub lists: bool }
 pub struct C13;
 
 /// escaped-literal families: backslash and quote in the middle, value ending in a backslash, value ending in a quote
@@ -27,13 +27,31 @@ fn pred(p: u32) -> String { format!("http://e/p{}", p) }
 /// N-Quads only: statement i of the document may carry a graph name (a pure function of the render seed and i)
 pub fn nq_graph(doc: &Doc, i: usize, enabled: bool) -> Option<u32> { if !enabled { return None; } let h = kolibrie_verif_rt::rng::mix(doc.seed, i as u64); if h % 4 == 0 { Some((h >> 8) as u32 % 3) } else { None } }
 /// render the abstract document; blank / comment lines fall on PRNG-chosen positions so chunk boundaries hit every kind of line
-pub fn render(doc: &Doc, fmt: &Fmt, comments: bool, nq_graphs: bool) -> String {
+pub fn render(doc: &Doc, fmt: &Fmt, comments: bool, nq_graphs: bool, lists: bool) -> String {
     let mut r = Rng::new(doc.seed);
     let mut out = String::new();
     let filler = |r: &mut Rng, out: &mut String| { if comments && r.chance(1, 7) { if r.chance(1, 2) { out.push('\n'); } else { out.push_str("# a comment line\n"); } } };
     match fmt {
         Fmt::NTriples => { for (s, p, o) in &doc.triples { filler(&mut r, &mut out); out.push_str(&format!("{} <{}> {} .\n", nt(s), pred(*p), nt(o))); } }
         Fmt::NQuads => { for (i, (s, p, o)) in doc.triples.iter().enumerate() { filler(&mut r, &mut out); match nq_graph(doc, i, nq_graphs) { Some(g) => out.push_str(&format!("{} <{}> {} <http://e/g{}> .\n", nt(s), pred(*p), nt(o), g)), None => out.push_str(&format!("{} <{}> {} .\n", nt(s), pred(*p), nt(o))) } } }
+        Fmt::Turtle if lists => {
+            // predicate-object lists and object lists, one statement per line: `s p o1 , o2 ; p2 o3 .`
+            out.push_str("@prefix e: <http://e/> .\n");
+            let mut i = 0;
+            while i < doc.triples.len() {
+                filler(&mut r, &mut out);
+                let (s0, _, _) = &doc.triples[i];
+                let mut j = i; while j < doc.triples.len() && j < i + 4 && &doc.triples[j].0 == s0 { j += 1; }
+                let st = match s0 { LT::Iri(n) if r.chance(1, 2) => format!("e:n{}", n), x => nt(x) };
+                let mut line = st; let mut last_p: Option<u32> = None;
+                for (_, p, o) in &doc.triples[i..j] {
+                    let ot = match o { LT::Iri(n) if r.chance(1, 2) => format!("e:n{}", n), x => nt(x) };
+                    if last_p == Some(*p) { line.push_str(&format!(" , {}", ot)); } else { if last_p.is_some() { line.push_str(" ;"); } line.push_str(&format!(" e:p{} {}", p, ot)); last_p = Some(*p); }
+                }
+                line.push_str(" .\n"); out.push_str(&line);
+                i = j;
+            }
+        }
         Fmt::Turtle => {
             out.push_str("@prefix e: <http://e/> .\n");
             for (s, p, o) in &doc.triples {
@@ -116,12 +134,13 @@ impl Prop for C13 {
         let vocab = if big { (n as u64) * 2 } else { 12 };
         let term = |r: &mut Rng, obj: bool| -> LT { match r.below(10) { 0 | 1 if obj => LT::Lit(r.below(vocab) as u32), 2 if obj => LT::EscLit(r.below(5) as u32), 3 => LT::Bn(r.below(6) as u32), _ => LT::Iri(r.below(vocab) as u32) } };
         let triples: Vec<(LT, u32, LT)> = (0..n).map(|_| (term(&mut r, false), r.below(4) as u32, term(&mut r, true))).collect();
+        let mut triples = triples; if cfg.chance(1, 3) { triples.sort_by(|a, b| a.0.cmp(&b.0)); }
         let prior_kind = cfg.below(3);
         let prior: Vec<(LT, u32, LT, Option<u32>)> = if prior_kind == 0 { vec![] } else { (0..(1 + r.usize(12))).map(|_| (LT::Iri(r.below(vocab + 5) as u32), r.below(5) as u32, term(&mut r, true), if r.chance(1, 3) { Some(r.below(3) as u32) } else { None })).collect() };
         let all = [Fmt::NTriples, Fmt::NQuads, Fmt::Turtle, Fmt::N3, Fmt::RdfXml];
         let formats: Vec<Fmt> = if big { vec![r.pick(&all).clone(), r.pick(&all).clone()] } else { all.to_vec() };
         LoadCase { hash_seed: Rng::sub(seed, "hash").next(), pool: *cfg.pick(&[1, 2, 3, 4, 8, 16]), rayon_seed: Rng::sub(seed, "rayon").next(), cpus: 1 + cfg.below(16) as i64, shuttle_seed: Rng::sub(seed, "shuttle").next(),
-            prior, prior_terms: if prior_kind == 2 { r.below(40) as u32 } else { 0 }, doc: Doc { triples, seed: r.next() }, formats, twice: cfg.chance(1, 4), comments: cfg.chance(1, 2), n3_literals: cfg.chance(1, 10), nq_graphs: cfg.chance(1, 2) }
+            prior, prior_terms: if prior_kind == 2 { r.below(40) as u32 } else { 0 }, doc: Doc { triples, seed: r.next() }, formats, twice: cfg.chance(1, 4), comments: cfg.chance(1, 2), n3_literals: cfg.chance(1, 10), nq_graphs: cfg.chance(1, 2), lists: cfg.chance(1, 3) }
     }
     fn exec(&self, c: &LoadCase, ctx: &mut Ctx) -> Option<Violation> {
         rayon::sim_configure(c.rayon_seed, c.pool);
@@ -149,7 +168,7 @@ impl Prop for C13 {
                 (&proj_doc, expected(&proj_doc))
             } else { (&c.doc, want_doc.clone()) };
             let want_doc = if *fmt == Fmt::NQuads && c.nq_graphs { expected_nq(doc, true) } else { want_doc };
-            let text = render(doc, fmt, c.comments, c.nq_graphs);
+            let text = render(doc, fmt, c.comments, c.nq_graphs, c.lists);
             let lines = text.lines().count();
             if let Err(v) = load(&mut db, fmt, &text, c.shuttle_seed, ctx) { return fin(Some(v)); }
             if c.twice { if let Err(v) = load(&mut db, fmt, &text, c.shuttle_seed ^ 1, ctx) { return fin(Some(v)); } ctx.hit("probe.document_loaded_twice"); }
@@ -185,6 +204,7 @@ impl Prop for C13 {
         if c.comments { out.push(LoadCase { comments: false, ..c.clone() }); }
         if c.n3_literals { out.push(LoadCase { n3_literals: false, ..c.clone() }); }
         if c.nq_graphs { out.push(LoadCase { nq_graphs: false, ..c.clone() }); }
+        if c.lists { out.push(LoadCase { lists: false, ..c.clone() }); }
         if c.pool != 1 { out.push(LoadCase { pool: 1, rayon_seed: 0, ..c.clone() }); }
         if c.cpus != 1 { out.push(LoadCase { cpus: 1, ..c.clone() }); }
         // simplify terms
